@@ -152,17 +152,22 @@ Premise(r) ==
                           /\ \A k \in 1..Len(r.excl) : PositiveW(r.excl[k]) /\ NonNeg(r.excl[k])
 
 (* ================================================================= A-layer ============ *)
-(* The repaired scanner would skip blank lines (`if not line: continue` after the rstrip).  FALSE models the *)
-(* code as it is: a blank line falls into the "no N in line" branch and opens a run at the cursor.           *)
-BlankLinesSkipped == FALSE
+(* The scanner skips blank lines (`if not line: continue` after the rstrip; repaired in /repo, "fix: access      *)
+(* ignores blank lines ...").  Before the repair a blank line fell into the "no N in line" branch and opened a  *)
+(* run at the cursor; that behaviour is kept as the `skip = FALSE` variant of the operators below              *)
+(* (GetRegionsUnrepaired) and documented by the design invariants DesignOldScannerOK / OldScannerDiffersOnlyOnTrigger *)
+(* of MC_Access.                                                                                               *)
+BlankLinesSkipped == TRUE
 
 ScanInit == [chrom |-> 0, cursor |-> None, run |-> None, emitted |-> <<>>]
 HasN(t)  == \E k \in 1..Len(t) : t[k] = NCode
 AllNs(t) == \A k \in 1..Len(t) : t[k] = NCode
-LineKind(l) == IF IsHeader(l) THEN "header"
-               ELSE IF BlankLinesSkipped /\ l[2] = <<>> THEN "blank"
+LineKindP(l, skip) ==
+               IF IsHeader(l) THEN "header"
+               ELSE IF skip /\ l[2] = <<>> THEN "blank"
                ELSE IF HasN(l[2]) THEN (IF AllNs(l[2]) THEN "alln" ELSE "mixed")
                ELSE "non"
+LineKind(l) == LineKindP(l, BlankLinesSkipped)
 Emit(st, s, e) == Append(st.emitted, <<st.chrom, s, e, "">>)
 
 (* `if line.startswith(">")`: emit the open run, next chromosome, run_start = None, cursor = 0 *)
@@ -184,22 +189,33 @@ ScanMixed(st, t) ==
     IN [chrom |-> st.chrom, cursor |-> st.cursor + Len(t),
         run |-> IF last + 1 < Len(t) THEN st.cursor + last + 1 ELSE None,               \* trailing non-N characters
         emitted |-> e2]
-(* no N in the line: open a run at the cursor unless one is open (a blank line lands here, too) *)
+(* no N in the line: open a run at the cursor unless one is open (before the repair a blank line landed here, too) *)
 ScanNoN(st, t) == [st EXCEPT !.run = IF @ = None THEN st.cursor ELSE @, !.cursor = @ + Len(t)]
+(* `if not line: continue` *)
 ScanBlank(st)  == st
 (* after the loop: emit the last run *)
 ScanEOF(st) == [st EXCEPT !.emitted = IF st.run # None THEN Emit(st, st.run, st.cursor) ELSE @]
 
-ScanLine(st, l) == LET kind == LineKind(l) IN
+ScanLineP(st, l, skip) == LET kind == LineKindP(l, skip) IN
     CASE kind = "header" -> ScanHeader(st)
       [] kind = "blank"  -> ScanBlank(st)
       [] kind = "alln"   -> ScanAllN(st, l[2])
       [] kind = "mixed"  -> ScanMixed(st, l[2])
       [] kind = "non"    -> ScanNoN(st, l[2])
-RECURSIVE ScanFrom(_, _, _)
-(* TLCEval: evaluate the scanner state eagerly at every line (TLC would otherwise nest one thunk per line) *)
-ScanFrom(f, k, st) == IF k > Len(f) THEN ScanEOF(st) ELSE ScanFrom(f, k + 1, TLCEval(ScanLine(st, f[k])))
-GetRegions(f) == ScanFrom(f, 1, ScanInit).emitted
+(* the `for line in infile` loop: ScanLine folded left to right over lines lo..hi.  The range is split in   *)
+(* halves only to keep TLC's evaluation stack shallow (a line-by-line recursion overflows it beyond ~150   *)
+(* lines); the result is that of the plain left fold.                                                      *)
+ScanLine(st, l) == ScanLineP(st, l, BlankLinesSkipped)
+RECURSIVE ScanRange(_, _, _, _, _)
+ScanRange(f, lo, hi, st, skip) ==
+    IF lo > hi THEN st
+    ELSE IF lo = hi THEN ScanLineP(st, f[lo], skip)
+    ELSE LET mid  == (lo + hi) \div 2
+             left == ScanRange(f, lo, mid, st, skip)
+         IN IF left.chrom >= 0 THEN ScanRange(f, mid + 1, hi, left, skip) ELSE left    \* (the test forces `left` first)
+GetRegionsP(f, skip) == ScanEOF(ScanRange(f, 1, Len(f), ScanInit, skip)).emitted
+GetRegions(f) == GetRegionsP(f, BlankLinesSkipped)
+GetRegionsUnrepaired(f) == GetRegionsP(f, FALSE)      \* the scanner before the blank-line repair
 
 (* access.drop_noncanonical_contigs *)
 DropNonCanonical(f, t) == SelectSeq(t, LAMBDA row : CanonicalName(SeqName(f, C(row))))
@@ -230,8 +246,10 @@ ALayer(r) == IF r.op = "regions" THEN GetRegions(r.fasta) ELSE JoinRegions(Befor
 Drift(r)  == IF NoErr(r) THEN (ALayerErr(r) \/ r.out # ALayer(r)) ELSE ~ALayerErr(r)
 
 (* ================================================================= known findings ===== *)
-(* A blank line where no run is open (at the start of a sequence or right after an N) that is followed by an N, *)
-(* a header or the end of the file makes the scanner emit an empty region at the cursor.                        *)
+(* Repaired finding (kept as documentation): a blank line where no run is open (at the start of a sequence or   *)
+(* right after an N) that is followed by an N, a header or the end of the file made the unrepaired scanner emit  *)
+(* an empty region at the cursor ('>a\n\n>b\nAC\n' -> (a,0,0)); do_access then reported it or joined real     *)
+(* regions across it.  BlankLineOutsideRun characterises exactly the inputs on which GetRegionsUnrepaired differs. *)
 BlankLineOutsideRun(r) ==
     \E n \in 1..NSeq(r.fasta) :
         /\ r.op = "access" => ~Dropped(r, n)
@@ -241,7 +259,7 @@ BlankLineOutsideRun(r) ==
                  /\ ls[j] = <<>>
                  /\ LET c == Len(ConcatRange(ls, 1, j - 1))
                     IN (c = 0 \/ T[c] = NCode) /\ (c = Len(T) \/ T[c+1] = NCode)
-KnownTriggers == {"BlankLineOutsideRun"}
+KnownTriggers == {"BlankLineOutsideRun"}     \* repaired (known_findings.json: status fixed -- suppresses nothing); kept as a diagnostic label
 TriggerHolds(t, r) ==
     CASE t = "BlankLineOutsideRun" -> BlankLineOutsideRun(r)
       [] OTHER -> FALSE
